@@ -13,6 +13,7 @@ import Imeta.Lemmas.ExifWalk
 import Imeta.Lemmas.BmffWalks
 import Imeta.Lemmas.QSelect
 import Imeta.Lemmas.TiffReq
+import Imeta.Model.PngReq
 namespace Imeta.C02
 open Imeta
 
@@ -142,5 +143,14 @@ theorem C02_tiff_requested_4096 (b : Bytes) :
 two Reads, 8161 bytes requested -/
 example : (Tiff.scanC 4096 65 (List.replicate 64 0x4d) 0 { buffered := 0, srcLeft := 64, req := 0, reads := 0 }) =
     (.err .noExif, { buffered := 31, srcLeft := 0, req := 8161, reads := 2 }) := by decide +kernel
+
+/-- **Bytes requested by the PNG chunk walk.**  On a source that delivers what it has up to the length asked for, for every
+input: the walk asks for at most len + 16 bytes — every header it reads in full costs its 8 bytes, the headers lie at
+strictly increasing positions (each step seeks forward over the chunk), and only the last, failing io.ReadFull can cost up to
+two Reads of 8.  Within the property's 4·len + 64 KiB. -/
+theorem C02_png_requested (b : Bytes) : Png.scanReq b ≤ b.length + 16 := Png.scanReq_le b
+
+/-- non-vacuity: signature + IHDR + a chunk header cut off after 5 bytes: 8 + 8 + (8 + 3) = 27 -/
+example : Png.scanReq (Png.signature ++ [0, 0, 0, 0, 73, 72, 68, 82, 0, 0, 0, 0] ++ [0, 0, 0, 9, 116]) = 27 := by decide +kernel
 
 end Imeta.C02
